@@ -1,7 +1,10 @@
 package main
 
 import (
+	"go/ast"
+	"go/constant"
 	"go/types"
+	"math/big"
 	"strings"
 
 	"golang.org/x/tools/go/ssa"
@@ -18,7 +21,59 @@ type ReplayResult struct {
 
 func (E *Engine) extraChecks(cfg *PropConfig) {}
 
-func (E *Engine) globalFacts(x *Exec, fn *ssa.Function, fc *FuncContract) []*Term { return nil }
+// globalFacts: the elements of package-level arrays with a constant
+// initialiser that are never written outside init (lookup tables), read from
+// the source on every run, for the globals the function refers to.
+func (E *Engine) globalFacts(x *Exec, fn *ssa.Function, fc *FuncContract) []*Term {
+	var out []*Term
+	seen := map[*ssa.Global]bool{}
+	var scan func(f *ssa.Function, depth int)
+	scan = func(f *ssa.Function, depth int) {
+		for _, b := range f.Blocks {
+			for _, in := range b.Instrs {
+				for _, op := range in.Operands(nil) {
+					if g, ok := (*op).(*ssa.Global); ok && !seen[g] {
+						seen[g] = true
+						out = append(out, E.arrayGlobalFacts(x, g)...)
+					}
+				}
+			}
+		}
+	}
+	scan(fn, 0)
+	return out
+}
+
+func (E *Engine) arrayGlobalFacts(x *Exec, g *ssa.Global) []*Term {
+	at, ok := g.Type().(*types.Pointer).Elem().Underlying().(*types.Array)
+	if !ok {
+		return nil
+	}
+	if _, _, isInt := intInfo(at.Elem()); !isInt {
+		return nil
+	}
+	key := g.Pkg.Pkg.Path() + "." + g.Name()
+	if !E.neverWritten(g) {
+		return nil
+	}
+	vals, ok := E.constArray(g)
+	if !ok {
+		return nil
+	}
+	st := x.newState()
+	a := &Addr{K: AGlobal, Key: key, T: at, contT: at}
+	arr := x.loadAddr(st, a)
+	var out []*Term
+	el := at.Elem()
+	memKey := hkey("M", typeKey(el), 0)
+	mem := x.heapArr(st, memKey, x.memSort(x.tc.leaves(el)[0]))
+	out = append(out, Lt(arr.L[0], IntC(0))) // static storage: not a heap reference
+	for i, v := range vals {
+		out = append(out, Eq(Select(Select(mem, arr.L[0]), x.idxConst(int64(i))), x.intConst(v, el)))
+	}
+	E.noteAssumption("package-level lookup tables never written outside init are read as their source initialiser (" + key + ")")
+	return out
+}
 
 
 // VerifyLemmas proves every lemma that was used (all of them in thorough tier)
@@ -129,4 +184,91 @@ func (E *Engine) sentinelID(key string) int {
 		E.sentinelIDs[key] = id
 	}
 	return id
+}
+
+type okT bool
+
+func (o okT) ok() bool { return bool(o) }
+
+func (E *Engine) neverWritten(g *ssa.Global) bool {
+	for _, f := range allFunctions(E.L.Prog, g.Pkg) {
+		if f.Name() == "init" {
+			continue
+		}
+		for _, b := range f.Blocks {
+			for _, in := range b.Instrs {
+				switch v := in.(type) {
+				case *ssa.Store:
+					if v.Addr == g {
+						return false
+					}
+					if ia, ok := v.Addr.(*ssa.IndexAddr); ok && ia.X == g {
+						return false
+					}
+				}
+			}
+		}
+	}
+	return true
+}
+
+// constArray evaluates the composite-literal initialiser of an array global.
+func (E *Engine) constArray(g *ssa.Global) ([]*big.Int, bool) {
+	pp := E.L.PPkgs[g.Pkg.Pkg.Path()]
+	if pp == nil {
+		return nil, false
+	}
+	for _, file := range pp.Syntax {
+		for _, d := range file.Decls {
+			gd, ok := d.(*ast.GenDecl)
+			if !ok {
+				continue
+			}
+			for _, sp := range gd.Specs {
+				vs, ok := sp.(*ast.ValueSpec)
+				if !ok {
+					continue
+				}
+				for ni, n := range vs.Names {
+					if n.Name != g.Name() || ni >= len(vs.Values) {
+						continue
+					}
+					cl, ok := vs.Values[ni].(*ast.CompositeLit)
+					if !ok {
+						return nil, false
+					}
+					at, ok := pp.TypesInfo.TypeOf(cl).Underlying().(*types.Array)
+					if !ok {
+						return nil, false
+					}
+					out := make([]*big.Int, at.Len())
+					for i := range out {
+						out[i] = big.NewInt(0)
+					}
+					idx := 0
+					for _, el := range cl.Elts {
+						val := el
+						if kv, ok := el.(*ast.KeyValueExpr); ok {
+							ktv := pp.TypesInfo.Types[kv.Key]
+							if ktv.Value == nil {
+								return nil, false
+							}
+							k, _ := constant.Int64Val(ktv.Value)
+							idx = int(k)
+							val = kv.Value
+						}
+						tv := pp.TypesInfo.Types[val]
+						if tv.Value == nil || tv.Value.Kind() != constant.Int || idx >= len(out) {
+							return nil, false
+						}
+						v, _ := new(big.Int).SetString(tv.Value.ExactString(), 10)
+						out[idx] = v
+						idx++
+					}
+					return out, true
+				}
+			}
+		}
+	}
+	return nil, false
 }
